@@ -26,6 +26,12 @@ ASSUMPTIONS = [
 PATH_CHARS = "".join(chr(c) for c in range(0x21, 0x7F) if chr(c) not in "?#")
 TOKEN = "ABCDEFGHIJKLMNOPQRSTUVWXYZabcdefghijklmnopqrstuvwxyz0123456789-_"
 
+# a start-line token is any run of bytes without the six ASCII whitespace bytes; bytes that only *text* functions treat
+# as whitespace (U+001C-1F, U+0085, U+00A0 under latin-1) or as digits/letters are ordinary token bytes
+_ASCII_WS = b" \t\n\r\x0b\x0c"
+_TEXT_WS = [0x1C, 0x1D, 0x1E, 0x1F, 0x85, 0xA0]
+_wide_byte = st.one_of(st.sampled_from(_TEXT_WS + [0x00, 0x7F, 0x80, 0xB2, 0xB9, 0xFF]), st.integers(0, 255)).filter(lambda c: c not in _ASCII_WS)
+wide_token = st.lists(st.one_of(_wide_byte, st.sampled_from(list(TOKEN.encode()))), min_size=1, max_size=8).map(bytes)
 header_key = st.text(alphabet=TOKEN, min_size=1, max_size=12).map(lambda s: s.encode())
 header_val = st.one_of(
     st.text(alphabet="".join(chr(c) for c in range(0x20, 0x7F)), max_size=30).map(lambda s: s.encode()),
@@ -38,7 +44,7 @@ path = st.lists(st.text(alphabet=PATH_CHARS, max_size=8), min_size=1, max_size=4
 pkey = st.one_of(st.text(alphabet=TOKEN, min_size=1, max_size=8).map(lambda s: s.encode()), S.binary(0, 8))
 pval = st.one_of(st.text(alphabet=TOKEN + "+/= ", min_size=1, max_size=24).map(lambda s: s.encode()), S.binary(1, 24))
 params = st.lists(st.tuples(pkey, pval), max_size=5, unique_by=lambda t: t[0])
-method = st.one_of(st.sampled_from([b"GET", b"POST", b"PUT", b"DELETE", b"OPTIONS", b"get", b"X-CUSTOM"]), st.text(alphabet=TOKEN, min_size=1, max_size=8).map(lambda s: s.encode())).filter(
+method = st.one_of(st.sampled_from([b"GET", b"POST", b"PUT", b"DELETE", b"OPTIONS", b"get", b"X-CUSTOM"]), st.text(alphabet=TOKEN, min_size=1, max_size=8).map(lambda s: s.encode()), wide_token).filter(
     lambda m: not m.upper().startswith(b"HTTP")
 )
 
@@ -100,7 +106,7 @@ def response_strategy():
     return st.fixed_dictionaries(
         {
             "status": st.one_of(st.sampled_from([100, 200, 204, 301, 404, 500, 999]), st.integers(100, 999)),
-            "reason": st.one_of(st.sampled_from([b"OK", b"Found", b"ok", b"200"]), st.text(alphabet=TOKEN, min_size=1, max_size=10).map(lambda s: s.encode())),
+            "reason": st.one_of(st.sampled_from([b"OK", b"Found", b"ok", b"200"]), st.text(alphabet=TOKEN, min_size=1, max_size=10).map(lambda s: s.encode()), wide_token),
             "headers": headers,
             "body": body,
             "version": st.sampled_from([b"HTTP/1.1", b"HTTP/1.0", b"http/1.1", b"HTTP/2"]),
@@ -132,7 +138,9 @@ def malformed_strategy():
         {
             "tokens": st.one_of(st.lists(tok, max_size=2), st.lists(tok, min_size=4, max_size=7)),
             "http_prefix": st.booleans(),
-            "sep": st.sampled_from([b" ", b"  ", b"\t"]),
+            # 3 "parts" joined by a byte that is whitespace only for text functions are ONE token: still malformed
+            "sep": st.sampled_from([b" ", b"  ", b"\t", b" ", b"\x1f", b"\x85", b"\xa0", b"\x1c"]),
+            "three": st.booleans(),
             "headers": headers,
             "body": body,
             "no_crlf": st.booleans(),
@@ -146,14 +154,19 @@ def malformed_execute(case, stats):
     toks = list(case["tokens"])
     if case["http_prefix"] and toks:
         toks[0] = b"HTTP/1.1"
+    if case.get("three") and case["sep"] not in (b" ", b"  ", b"\t"):
+        toks = (toks + [b"/index.html", b"HTTP/1.1", b"200"])[:3]
     first = case["sep"].join(toks)
+    if len(first.split()) == 3:
+        stats.discard()
+        return
     if case["no_crlf"]:
         wire = first
     else:
         wire = b"\r\n".join([first] + [k + b": " + v for k, v in case["headers"]]) + b"\r\n\r\n" + case["body"]
     r = lib(c2.parse_raw_http, wire, allow=(ValueError,), what="parse_raw_http")
-    check(isinstance(r, Raised), "malformed:accepted", f"start line with {len(toks)} tokens accepted: {wire[:200]!r} -> {r!r}")
-    stats.note(case, True, classes=["tokens%d" % min(len(toks), 4), "status_line" if case["http_prefix"] else "request_line"])
+    check(isinstance(r, Raised), "malformed:accepted", f"start line with {len(first.split())} tokens accepted: {wire[:200]!r} -> {r!r}")
+    stats.note(case, True, classes=["tokens%d" % min(len(first.split()), 4), "text_whitespace_separator" if case["sep"][0] > 0x20 or case["sep"] == b"\x1f" or case["sep"] == b"\x1c" else "ascii_separator", "status_line" if case["http_prefix"] else "request_line"])
 
 
 def bad_status_strategy():
